@@ -11,7 +11,8 @@ DUTs (one per case, drawn from the seed):
 
 Workload: a session of 25-60 "blocks".  A block is an optional run of 0-2 damaged / unrelated packets followed by a
 SETUP transaction variant (good 8 bytes; 0-12 bytes with good CRC; CRC damaged in one bit; truncated; valid packet
-with extra tail bytes; another token / SOF / handshake / damaged packet between token and data; token without data;
+with extra tail bytes; over-long packets (9-24 bytes) with PID-looking bytes at offsets 9-15, CRC-valid as a whole or
+ending in the complete image of a valid 8-byte DATA0 packet; another token / SOF / handshake / damaged packet between token and data; token without data;
 data without token), or unrelated traffic (transactions to a foreign address that differ from ours in one bit,
 IN/OUT/PING to us, SOF, handshakes, garbage).  Damaged packets: data packets of every length with failing CRC,
 PID-only / aborted data packets, over-long packets, tokens with bad CRC5 / PID check / length, empty rx_active pulses.
@@ -56,10 +57,11 @@ RULE = ("case = (DUT mode, own address, rx byte-gap profile, tx_ready profile, s
         "damaged packet, and >=1 rejected SETUP attempt; distinct = hash of mode, address and the packet script")
 PRE_KINDS = ["data_badcrc_short", "data_badcrc_8", "data_truncated", "data_overlong", "data_pid_only", "token_badcrc5",
              "token_truncated", "token_overlong", "bad_pid", "handshake", "foreign_setup_txn", "own_out_txn", "own_in",
-             "sof", "stray_data", "garbage", "empty", "setup_token_only"]
+             "sof", "stray_data", "garbage", "empty", "setup_token_only", "data_overlong_pidlike"]
 REQUIRED_BINS = (["mode_sa_hs", "mode_sa_fs", "mode_dev_fs12", "mode_dev_fs60", "valid_setup", "valid_setup_back_to_back",
                   "setup_wrong_len_short", "setup_wrong_len_long", "setup_len_7", "setup_len_9", "setup_len_0", "setup_bad_crc",
-                  "setup_truncated", "setup_tail", "setup_data_bad_pid", "data8_without_setup_token", "own_token_between", "foreign_token_between",
+                  "setup_truncated", "setup_tail", "setup_data_bad_pid", "setup_overlong_embedded_setup_tail",
+                  "setup_overlong_pidlike_crc_valid", "data8_without_setup_token", "own_token_between", "foreign_token_between",
                   "sof_between", "junk_between", "tight_gap_before_setup", "nonzero_address", "foreign_addr_one_bit",
                   "payload_single_bit", "rx_gaps", "tx_backpressure", "setup_token_repeated", "retry_after_rejected_setup_data",
                   "judged_data_after_foreign_token", "judged_data_after_sof_token"]
@@ -105,6 +107,29 @@ def _payload(rng, n, res=None):
     src = U.token(U.SETUP, rng.randrange(128), 0) + U.data(U.DATA0, b"")[:3] + bytes([U.pid_byte(U.ACK), U.pid_byte(U.DATA0)]) * 3
     off = rng.randrange(4)
     return bytes((src * 3)[off:off + n])
+
+
+PIDLIKE = [U.pid_byte(U.DATA0), U.pid_byte(U.DATA1), U.pid_byte(U.SETUP), U.pid_byte(U.OUT), U.pid_byte(U.IN), U.pid_byte(U.ACK)]
+
+
+def _overlong(rng, embedded_tail):
+    """Over-long data packet (9..24 payload bytes) whose bytes at packet offsets 9..15 look like PIDs.
+    embedded_tail: the packet *ends* with a complete, CRC-valid 8-byte DATA0 packet image (PID c3 at a random offset
+    10..15), so a receiver that re-synchronises in the middle of the packet sees a valid SETUP payload; the whole
+    packet then fails its own CRC.  Otherwise the whole packet is CRC-valid."""
+    if embedded_tail:
+        o = rng.randint(10, 15)                                       # packet offset of the embedded PID byte
+        pre = bytes(rng.choice(PIDLIKE) if (i >= 8 or rng.random() < 0.3) else rng.randrange(256) for i in range(o - 1))
+        x = _payload(rng, 8)
+        return bytes([U.pid_byte(U.DATA0)]) + pre + U.data(U.DATA0, x)
+    n = rng.randint(9, 24)
+    pay = bytearray(rng.randrange(256) for _ in range(n))
+    for i in range(8, min(n, 15)):                                    # payload index 8..14 = packet offset 9..15
+        pay[i] = rng.choice(PIDLIKE) if rng.random() < 0.8 else pay[i]
+    if rng.random() < 0.5 and n >= 12:
+        t = U.token(U.SETUP, rng.randrange(128), 0)
+        pay[9:12] = t                                                  # a SETUP-token image inside the payload
+    return U.data(rng.choice([U.DATA0, U.DATA1]), bytes(pay))
 
 
 def _flip(rng, pkt, lo=1):
@@ -188,6 +213,13 @@ class Script:
             self.add(kind, b"\x00", abort=0)
         elif kind == "setup_token_only":
             self.add(kind, U.token(U.SETUP, own, 0))
+        elif kind == "data_overlong_pidlike":
+            # e.g. a bulk OUT to another endpoint / another device carrying PID-looking bytes
+            if rng.random() < 0.5:
+                self.add("out_token_other_ep", U.token(U.OUT, own, rng.randint(1, 15)))
+            else:
+                self.add("out_token_foreign", U.token(U.OUT, self.foreign(), rng.randrange(16)))
+            self.add(kind, _overlong(rng, rng.random() < 0.4), gap="td")
         else:
             raise ValueError(kind)
 
@@ -219,6 +251,10 @@ class Script:
             # a complete valid 8-byte packet followed by more bytes inside the same packet
             p = U.data(U.DATA0, _payload(rng, 8)) + bytes(rng.randrange(256) for _ in range(rng.randint(1, 3)))
             self.add("setup_data_tail", p, gap="td", respond=True, tag="setup_tail")
+        elif variant == "overlong_pidlike":
+            emb = rng.random() < 0.55
+            self.add("setup_data_overlong_pidlike", _overlong(rng, emb), gap="td", respond=True,
+                     tag="setup_overlong_embedded_setup_tail" if emb else "setup_overlong_pidlike_crc_valid")
         elif variant == "bad_pid_data":
             p = bytearray(U.data(U.DATA0, _payload(rng, 8)))
             p[0] ^= 1 << rng.randrange(4, 8)            # PID check nibble damaged: not a data packet at all
@@ -248,7 +284,7 @@ class Script:
 
     def build(self, nblocks):
         rng = self.rng
-        variants = ["good"] * 10 + ["wrong_len"] * 4 + ["bad_crc"] * 2 + ["truncated", "tail", "other_pid", "bad_pid_data", "no_data", "stray8", "stray8"] + ["between"] * 3
+        variants = ["good"] * 10 + ["wrong_len"] * 4 + ["bad_crc"] * 2 + ["truncated", "tail", "other_pid", "bad_pid_data", "no_data", "stray8", "stray8", "overlong_pidlike", "overlong_pidlike"] + ["between"] * 3
         for _ in range(nblocks):
             r = rng.random()
             if r < 0.72:
